@@ -25,6 +25,15 @@ def do_replay(prop, path, verify):
         raise core.HarnessError("%s is not a %s file" % (path, core.TRACE_FORMAT))
     if trace.get("property") != prop:
         raise core.HarnessError("%s is a replay file of %s, not %s" % (path, trace.get("property"), prop))
+    hs = trace.get("hashseed")
+    if hs is not None and str(hs) != os.environ.get("PYTHONHASHSEED"):
+        # the trace was recorded under another hash seed: re-execute under that one
+        env = dict(os.environ)
+        env.pop("CVSSSIM_CHILD", None)
+        env["VERIF_KEEP_HASHSEED"] = "1"
+        env["PYTHONHASHSEED"] = str(hs)
+        sys.stdout.flush()
+        os.execve(os.path.join(core.VERIF, "check"), [os.path.join(core.VERIF, "check")] + sys.argv[1:], env)
     engine = checks.engine_for_trace(prop, trace)
     out = engine.execute(trace)
     expect = trace.get("expect", {})
